@@ -12,6 +12,8 @@ def run(sql, frames):
     import data_algebra.SQLite
     from vf.sym import rel
 
+    # SQLite casts a non-numeric string to 0: spell the PostgreSQL infinity literals the way SQLite understands them
+    sql = sql.replace("CAST('+infinity' AS DOUBLE PRECISION)", "9e999").replace("CAST('-infinity' AS DOUBLE PRECISION)", "-9e999")
     conn = sqlite3.connect(":memory:")
     try:
         m = data_algebra.SQLite.SQLiteModel()
